@@ -553,7 +553,10 @@ class FunctionType(ParametrizedTypeBase):
             # However, we have to down-shift the de Bruijn index.
             if arg is None:
                 param = param.with_idx(len(remaining_params))
-                remaining_params.append(param.instantiate_bounds(full_inst))
+                # Occurrences of the variable must carry the instantiated bounds as well
+                # (e.g. `x: T` turns into `x: nat` under `T := nat`)
+                param = param.instantiate_bounds(full_inst)
+                remaining_params.append(param)
                 arg = param.to_bound()
 
             # Set the `preserve` flag for instantiated tuples and None
